@@ -22,6 +22,8 @@ missing = [t for t in stable if status.get(t) != 'PASS']
 print('stable_pass total', len(stable), 'passed now', len(stable) - len(missing))
 allpass = sum(1 for v in status.values() if v == 'PASS')
 print('all tests passing now:', allpass, 'of', len(status))
+for k,v in sorted(status.items()):
+    if v != 'PASS': print('NONPASS(any):', k, v)
 for t in sorted(missing)[:40]:
     print('NOT PASSING:', t, status.get(t))
 sys.exit(1 if missing else 0)
